@@ -171,12 +171,15 @@ func c17Worker(args []string) int {
 	var mu sync.Mutex
 	for round := 0; round < rounds; round++ {
 		// shared ASTs and independent inputs of this round, built by the main goroutine
-		const K = 6
+		const K = 8
 		var shared []*c17shared
 		for k := 0; len(shared) < K; k++ {
 			kind := gen.KindIndex([]string{"Select", "Select", "Explain", "CreateContinuousQuery"}[k%4])
 			if k == 5 {
 				kind = -1 // any statement kind (SHOW, DROP, ... with conditions and sources)
+			}
+			if k >= 6 {
+				kind = gen.KindIndex("Select")
 			}
 			gc := genCase(seed, "c17.shared", round*64+k, kind, -1, gen.Opts{SubqDepth: 2, SubqProb: 0.3, MaxDepth: 2}, "spaced")
 			st, err := influxql.ParseStatement(gc.Text)
@@ -190,12 +193,31 @@ func c17Worker(args []string) int {
 				st, _ = influxql.ParseStatement(txt)
 				gc.Text = txt
 			}
+			if k >= 6 {
+				// one wildcard / regex call of every function class RewriteFields
+				// distinguishes, in separate statements whose twins are computed in a
+				// round-dependent order: the numeric class before and after the
+				// narrower holt_winters class, over all five field types
+				txt := [][]string{
+					{"SELECT mean(*), sum(/./), derivative(mean(*), 1m), percentile(*, 90) FROM cpu GROUP BY time(1m), *",
+						"SELECT holt_winters(*, 10, 2), holt_winters_with_fit(/./, 10, 2), max(*), count(/./), distinct(*) FROM cpu GROUP BY time(1m)"},
+					{"SELECT holt_winters_with_fit(*, 3, 1), min(/./), first(*), sample(*, 2), mode(/u|s/) FROM cpu, mem GROUP BY time(5m), host",
+						"SELECT median(*), stddev(/./), spread(*), moving_average(mean(*), 3), top(/./, 2), elapsed(*) FROM cpu GROUP BY time(1m)"},
+				}[round%2][(k-6)%2]
+				st, _ = influxql.ParseStatement(txt)
+				gc.Text = txt
+			}
 			sh := &c17shared{text: gc.Text, st: st}
 			sh.mapper = randomMapper(mon.NewRng(seed, "c17.mapper", round*64+k), append(refNames(st), "value", "host", "a", "b", "v", "w", "region"))
 			for _, n := range []string{"value", "a", "b", "v", "w"} {
 				sh.mapper.fields[""][n] = influxql.Float
 			}
 			sh.mapper.tags[""] = append(sh.mapper.tags[""], "host", "region")
+			if k >= 6 {
+				for n, t := range map[string]influxql.DataType{"f": influxql.Float, "i": influxql.Integer, "u": influxql.Unsigned, "s": influxql.String, "bo": influxql.Boolean} {
+					sh.mapper.fields[""][n] = t
+				}
+			}
 			shared = append(shared, sh)
 		}
 		in := &c17indep{}
@@ -311,6 +333,41 @@ func c17Worker(args []string) int {
 		}
 		start.Done()
 		wg.Wait()
+		// every call made alone again, after the storm: a result that now differs
+		// from the one computed before it depends on what other calls did (a
+		// memo, cache or shared table written by an operation that should only read)
+		for _, op := range sharedOps {
+			for k, sh := range shared {
+				for a := 0; a < 4; a++ {
+					var got string
+					func() {
+						defer func() {
+							if v := recover(); v != nil {
+								got = fmt.Sprint("PANIC ", v)
+							}
+						}()
+						got = op.run(sh, a)
+					}()
+					res.OpCounts["after."+op.name]++
+					if want := twin[key(op.name, k, a)]; got != want {
+						if atomic.AddInt64(&nmis, 1) <= 10 {
+							res.Mismatches = append(res.Mismatches, fmt.Sprintf("%s on shared AST %q: the call made alone after the concurrent phase returns %q, before it returned %q", op.name, trunc(sh.text, 300), trunc(got, 300), trunc(want, 300)))
+						}
+					}
+				}
+			}
+		}
+		for _, op := range indepOps {
+			for a := 0; a < 24; a++ {
+				got := op.run(nil, a)
+				res.OpCounts["after."+op.name]++
+				if want := twin[key(op.name, 0, a)]; got != want {
+					if atomic.AddInt64(&nmis, 1) <= 10 {
+						res.Mismatches = append(res.Mismatches, fmt.Sprintf("%s (input %d): the call made alone after the concurrent phase returns %q, before it returned %q", op.name, a, trunc(got, 300), trunc(want, 300)))
+					}
+				}
+			}
+		}
 		for _, cm := range counts {
 			for k, v := range cm {
 				res.OpCounts[k] += v
